@@ -68,3 +68,49 @@ var Codecs = map[string]string{
 	// http response arg2: status:2 message~varint nh:2 (k~2 v~2){nh}
 	"httpResponse": "u16 sv rep16[s16 s16]",
 }
+
+// WireCodes: the code points of the TChannel protocol specification
+// (docs/protocol.md of the protocol repository), keyed by the name of the Go
+// constant that carries them. The constants are written to and compared with
+// wire bytes verbatim, so a build in which two of them are swapped is
+// self-consistent (it passes every test that uses the names at both ends) and
+// cannot talk to any other implementation or version.
+var WireCodes = map[string]int64{
+	// frame types
+	"messageTypeInitReq":         0x01,
+	"messageTypeInitRes":         0x02,
+	"messageTypeCallReq":         0x03,
+	"messageTypeCallRes":         0x04,
+	"messageTypeCallReqContinue": 0x13,
+	"messageTypeCallResContinue": 0x14,
+	"messageTypeCancel":          0xc0,
+	"messageTypePingReq":         0xd0,
+	"messageTypePingRes":         0xd1,
+	"messageTypeError":           0xff,
+	// checksum types
+	"ChecksumTypeNone":     0x00,
+	"ChecksumTypeCrc32":    0x01,
+	"ChecksumTypeFarmhash": 0x02,
+	"ChecksumTypeCrc32C":   0x03,
+	// error codes
+	"ErrCodeInvalid":    0x00,
+	"ErrCodeTimeout":    0x01,
+	"ErrCodeCancelled":  0x02,
+	"ErrCodeBusy":       0x03,
+	"ErrCodeDeclined":   0x04,
+	"ErrCodeUnexpected": 0x05,
+	"ErrCodeBadRequest": 0x06,
+	"ErrCodeNetwork":    0x07,
+	"ErrCodeProtocol":   0xff,
+	// call res code, fragment flag, protocol version
+	"responseOK":               0x00,
+	"responseApplicationError": 0x01,
+	"hasMoreFragmentsFlag":     0x01,
+	"CurrentProtocolVersion":   0x02,
+}
+
+// WireCodeGroups: which names belong to which property's vocabulary.
+var WireCodeGroups = map[string]string{
+	"messageType": "frame", "ChecksumType": "checksum", "ErrCode": "error",
+	"response": "frame", "hasMoreFragmentsFlag": "frame", "CurrentProtocolVersion": "frame",
+}
